@@ -42,6 +42,8 @@ KEYS = z3.Function('KEYS', DS, Bool)
 ITEMS = z3.Function('ITEMS', DS, Bool)
 ORD = z3.Function('ORD', DS, Bool)
 FRESH = z3.Function('FRESH', DS, Bool)
+IREF = z3.Function('IREF', DS, Int)          # where a with_key iteration of a stage without items fails
+IEXC = z3.Function('IEXC', DS, Exc)
 # symbolic-length tuple of input datasets: IN(owner, j)
 IN = z3.Function('IN', Int, Int, DS)           # owner id (python int), index
 # user callables (A-PURE): outcome of f(x)
@@ -252,11 +254,43 @@ class Folds:
         self.instances.append(z3.Implies(e >= 0, f(e + 1) == f(e) + z3.substitute(t, (canon, e))))
 
     def note_index(self, e):
+        e = z3.simplify(e)
         if any(e.eq(x) for x in self.index_terms):
             return
         self.index_terms.append(e)
         for f, t, canon in self.by_key.values():
             self._unfold(f, t, canon, e)
+
+    def mono_instances(self):
+        """Instances of the lemma  0 <= a <= b  =>  SUM(a) <= SUM(b)  (summand >= 0) for all
+        pairs of noted index terms.  The lemma itself is proved by induction on b:
+        see lemma_obligations()."""
+        out = []
+        for f, t, canon in self.by_key.values():
+            for a in self.index_terms:
+                for b in self.index_terms:
+                    if a.eq(b):
+                        continue
+                    out.append(z3.Implies(z3.And(a >= 0, a <= b), f(a) <= f(b)))
+        return out
+
+    def lemma_obligations(self):
+        """(name, assumptions, goal) proving the monotonicity lemma by induction on b for each
+        fold: base SUM(a) <= SUM(a); step: from SUM(a) <= SUM(b), b >= a >= 0 and the defining
+        equation at b, and summand(b) >= 0, conclude SUM(a) <= SUM(b+1).  The summand's
+        non-negativity is itself part of the step obligation's goal."""
+        out = []
+        for key, (f, t, canon) in self.by_key.items():
+            a = z3.Int('_a')
+            b = z3.Int('_b')
+            tb = z3.substitute(t, (canon, b))
+            out.append(('lemma:mono(%s):summand-nonneg' % f.name(), [b >= 0], tb >= 0))
+            out.append(('lemma:mono(%s):step' % f.name(),
+                        [a >= 0, b >= a, f(a) <= f(b), f(b + 1) == f(b) + tb, tb >= 0], f(a) <= f(b + 1)))
+        return out
+
+    def all_instances(self):
+        return self.instances + self.mono_instances()
 
 
 FOLDS = Folds()
